@@ -135,6 +135,10 @@ m('c10-r2-cfg-elsewhere', 'C10', 'C10-R2', 'differs', (
     'src/taiko/difficulty/mod.rs', "        stamina_peak /= if is_convert || is_relax { 1.5 } else { 1.0 };",
     "        stamina_peak /= if is_convert || is_relax { 1.5 } else { 1.0 };\n        if cfg!(feature = \"sync\") {\n            stamina_peak *= 1.0000001;\n        }"))
 
+m('c10-r4-raw-push', 'C10', 'C10-R4', 'push:raw_strains', (
+    'src/util/strains_vec.rs', "            if value.to_bits() > 0 && value.is_sign_positive() {\n                self.inner.push(value);\n            } else {\n                self.inner.push(0.0);\n            }",
+    "            self.inner.push(value);"))
+
 # ---- C11 ----------------------------------------------------------------------------------------------------
 m('c11-r1-no-retain', 'C11', 'C11-R1', 'difficulty_value:transmute_into_vec', (
     'src/any/difficulty/skills.rs', "    peaks.retain_non_zero_and_sort();\n", "    peaks.sort_desc();\n"))
